@@ -9,7 +9,7 @@ from .. import world as W
 from . import _ws
 
 ID = 'C07'
-TIERS = {'quick': {'seeds': 4500, 'seconds': 75, 'determinism': 32},
+TIERS = {'quick': {'seeds': 4500, 'seconds': 45, 'determinism': 32},
          'thorough': {'seconds': 900, 'determinism': 256, 'minimise_s': 120}}
 RULE = ('runs with layer children (-j N, or layers resumed after a NotImplementedError tearDown) '
         'under channel faults: spawn failure; child death (exit 0/3, SIGKILL, SIGSEGV) at a random '
